@@ -321,3 +321,30 @@ func Depth(b []byte) (int, error) {
 	_, err := p.structAt(0, 0)
 	return p.deepest, err
 }
+
+// AnyBool reports whether pred holds for the byte of some bool value in the tree.
+func (n *WNode) AnyBool(pred func(b byte) bool) bool {
+	switch n.T {
+	case WBool:
+		return pred(byte(n.U))
+	case WStruct:
+		for i := range n.Fields {
+			if n.Fields[i].V.AnyBool(pred) {
+				return true
+			}
+		}
+	case WList, WSet:
+		for i := range n.Elems {
+			if n.Elems[i].AnyBool(pred) {
+				return true
+			}
+		}
+	case WMap:
+		for i := range n.Keys {
+			if n.Keys[i].AnyBool(pred) || n.Vals[i].AnyBool(pred) {
+				return true
+			}
+		}
+	}
+	return false
+}
